@@ -103,7 +103,7 @@ def snap_term(sn):
 
 def history_term(h, key):
     """A Coq term for one history. Definition sets are let-bound as d0..dk."""
-    lets = "".join("let d%d := %s in " % (i, defs_term(ds)) for i, ds in enumerate(h["sets"]))
+    lets = "".join("let d%d : defs := %s in " % (i, defs_term(ds)) for i, ds in enumerate(h["sets"]))
     steps = ";\n   ".join("(%s, %s, %s)" % (event_term(st["ev"], h["sets"]), res_term(st["res"]), snap_term(st["snap"])) for st in h["steps"])
     return "(%sHistory %s d0 [\n   %s])" % (lets, n_(key), steps)
 
@@ -149,7 +149,7 @@ def run_sysrun(ctx, bins, profile, seed, n, steps=60, procs=16, extra=()):
 SYS_HEADER = "From stdpp Require Import list.\nFrom Coq Require Import ZArith.\nFrom PV Require Import System Corr.SysCorr.\n"
 
 
-def replay_in_coq(ctx, hs, name="cases_sys", shards=16):
+def replay_in_coq(ctx, hs, name="cases_sys", shards=16, prop_code=0):
     """Returns {index_in_hs: (step, diff)} for the histories where model and implementation differ."""
     terms = [history_term(h, i) for i, h in enumerate(hs)]
     if not terms:
@@ -159,7 +159,7 @@ def replay_in_coq(ctx, hs, name="cases_sys", shards=16):
     for k in range(shards):
         part = terms[k::shards]
         src = SYS_HEADER + "Definition cases : list history := [\n" + ";\n".join(part) + "\n].\n"
-        src += "Definition bad := Eval vm_compute in mismatches cases.\nPrint bad.\n"
+        src += "Definition bad := Eval vm_compute in mismatches_for %d cases.\nPrint bad.\n" % prop_code
         path = os.path.join(ctx.run, "%s_%d.v" % (name, k))
         open(path, "w").write(src)
         procs.append((path, subprocess.Popen(["timeout", "1500", "coqc", "-Q", COQ, "PV", "-w", "none", path], cwd=ctx.run,
